@@ -1200,6 +1200,8 @@ package avro
 //     first); without a registration no custom builder is consulted at this level
 //@   ensures [C20] (!streq(schema.Type, "union") && !streq(schema.Type, "null") && typ != nil && rkind(data(typ)) != 22 && maphas(registry, typ)) ==> tlen() == 1 && tkind(0) == evREG && res == ifaceof(tc(0), td(0))
 //@   ensures [C20] (typ == nil || !maphas(registry, typ)) ==> tlen() == 0
+//     every construction of a codec for a (schema, type) pair goes through here: callers see it as a BUILD event
+//@   emits BUILD(typ)
 //@   uses kind_sizes(data(typ))
 //@   requires [C12] regFree()
 //@   ensures [C12] regFree()
@@ -1210,6 +1212,8 @@ package avro
 //@   requires typ != nil && data(typ) != nil && rkind(data(typ)) == 22
 //@   ensures [C05,C13,C20,C06] built(res, err, typ)
 //@   uses kind_sizes(data(typ))
+//     C20: the pointee's codec is obtained from buildCodec for the pointee type (so a registration for it governs)
+//@   ensures [C20] err == nil ==> tlen() == 1 && tkind(0) == evBUILD && tb(0) == uint64(relem(data(typ)))
 //@   requires [C12] regFree()
 //@   ensures [C12] regFree()
 //@   modifies heap cell:github.com/philpearl/avro.Codec.tag, heap cell:github.com/philpearl/avro.Codec.data, ghost lock.rheld
@@ -1221,6 +1225,8 @@ package avro
 //@   ensures [C05] (typ != nil && rkind(data(typ)) != 23) ==> err != nil
 //@   uses kind_sizes(data(typ))
 //@   uses kind_sizes(relem(data(typ)))
+//     C20: the item codec is obtained from buildCodec for the element type
+//@   ensures [C20] err == nil ==> tlen() == 1 && tkind(0) == evBUILD && (typ != nil ==> tb(0) == uint64(relem(data(typ)))) && (typ == nil ==> ta(0) == 0)
 //@   requires [C12] regFree()
 //@   ensures [C12] regFree()
 //@   modifies heap cell:github.com/philpearl/avro.Codec.tag, heap cell:github.com/philpearl/avro.Codec.data, ghost lock.rheld
@@ -1231,6 +1237,8 @@ package avro
 //@   ensures [C05,C13,C20,C06] built(res, err, typ)
 //@   ensures [C05] (typ != nil && (rkind(data(typ)) != 21 || rkind(rkey(data(typ))) != 24)) ==> err != nil
 //@   uses kind_sizes(data(typ))
+//     C20: the value codec is obtained from buildCodec for the map's element type
+//@   ensures [C20] err == nil ==> tlen() == 1 && tkind(0) == evBUILD && (typ != nil ==> tb(0) == uint64(relem(data(typ)))) && (typ == nil ==> ta(0) == 0)
 //@   requires [C12] regFree()
 //@   ensures [C12] regFree()
 //@   modifies heap cell:github.com/philpearl/avro.Codec.tag, heap cell:github.com/philpearl/avro.Codec.data, ghost lock.rheld
